@@ -214,7 +214,7 @@ Definition emit_t : bytes := [101; 109; 105; 116].
 
 (* a local command that writes 3 and 2 bytes and succeeds *)
 Definition witness_sc : scenario :=
-  mkSc 7 emit_t None false [] [105; 10] [[1; 2; 3]; [4; 5]] true 4242 [emit_t].
+  mkSc 7 emit_t None false [] [105; 10] [[1; 2; 3]; [4; 5]] true 4242 [emit_t] true.
 
 (* the unit has FINISHED (Succeeded, 5 bytes); the daemon is killed between the truncation and
    the rewrite of the record in which it clears the runner's PID *)
@@ -254,7 +254,7 @@ Proof. vm_compute. repeat split; reflexivity. Qed.
 
 (* a remote unit bound to node "b", started there: the binding is lost *)
 Definition witness_remote : scenario :=
-  mkSc 9 remote_name (Some ([98], emit_t)) true [85; 49] [105] [[]; [1; 2; 3]] true 0 [].
+  mkSc 9 remote_name (Some ([98], emit_t)) true [85; 49] [105] [[]; [1; 2; 3]] true 0 [] true.
 Definition witness_cp_remote : crashpoint := mkCp (repeat true 9 ++ [false]) false 5 0.
 
 Theorem C04_refuted_remote_thm :
